@@ -9,7 +9,7 @@ use crate::{
 };
 
 use super::{
-    r#type::TypeAlias, Assertion, Assignment, Break, Class, CompilationState, Compile,
+    new_err, r#type::TypeAlias, Assertion, Assignment, Break, Class, CompilationState, Compile,
     CompiledItem, Continue, Dependencies, Dependency, IfStatement, Import, NumberLoop,
     PrintStatement, Reassignment, ReturnStatement, Value, WhileLoop,
 };
@@ -121,7 +121,14 @@ impl Parser {
             Rule::value => Declaration::Value(Self::value(declaration)?),
             Rule::import => Declaration::Import(Self::import(declaration)?),
             Rule::type_alias => Declaration::TypeAlias(Self::type_alias(declaration).to_err_vec()?),
-            x => unreachable!("{x:?} is not supported"),
+            // e.g. a bare `typeof x`: the grammar lists it among the statements, but it is only meaningful as a value
+            _ => {
+                return Err(vec![new_err(
+                    declaration.as_span(),
+                    &input.user_data().get_source_file_name(),
+                    "this construct cannot be used as a statement by itself".into(),
+                )])
+            }
         };
 
         Ok(matched)
